@@ -909,9 +909,12 @@ class CSA:
             knows_loop = False
         else:
             knows_loop = s.assume.get('outer_loop')
+        argname = a[0][1] if a and a[0][0] == 'ast' else None
         for x in exits:
             ok = True
             s1 = s.clone()
+            blob = {'kind': 'blob', 'method': meth, 'arg': argname, 'pos': s1.pos, 'reach': x.reach, 'breaks': [], 'continues': [], 'frame': s1.frame, 'emitted': x.last is not None}
+            s1.code.append(blob)
             base_h = s1.h
             base_reach = s1.reach
             xdh = x.dh
@@ -961,7 +964,9 @@ class CSA:
                                            'what': '`stop` in %s' % ('statement position' if dh is not None and dh.c <= 1 and not dh.terms else 'operand position (values of enclosing expressions still on the stack)')}
                         s1.instr_at[pid] = 'Jump'
                         ctx.breaks.append(('pos', pid))
+                        blob['breaks'].append(pid)
                     else:
+                        blob['continues'].append(('pos', ctx.start.pos))
                         if live:
                             m.check_edge_label(s1, {'h': h_abs, 'frame': s1.frame, 'reach': True}, ctx.start,
                                                '`volgende` in %s' % ('statement position' if dh is not None and dh.c <= 1 and not dh.terms else 'operand position (values of enclosing expressions still on the stack)'))
